@@ -40,6 +40,13 @@ def _unavailable(status, path=""):
     return out
 
 
+def _rel(p):
+    try:
+        return p.relative_to(common.VERIF)
+    except ValueError:                     # a private evidence directory of the evaluation tools
+        return p
+
+
 def main() -> int:
     ap = argparse.ArgumentParser()
     ap.add_argument("prop")
@@ -189,7 +196,7 @@ def run(prop: str, tier: str, seed: int, replay: str | None, scratch: str) -> in
     for f in new_failures:
         p = common.write_replay(prop, seed, n, f)
         n += 1
-        lines.append(f"VIOLATION property={prop} replay={p.relative_to(common.VERIF)}")
+        lines.append(f"VIOLATION property={prop} replay={_rel(p)}")
         lines.append(f"  {f.key}: {f.what}")
         nviol += 1
         rc = 1
@@ -201,7 +208,7 @@ def run(prop: str, tier: str, seed: int, replay: str | None, scratch: str) -> in
                      "divergences": [{"key": d.key, "what": d.what, **d.replay}
                                      for d in ctx.divergences[:5]]})
         p = common.write_replay(prop, seed, n, f)
-        lines.append(f"VIOLATION property={prop} replay={p.relative_to(common.VERIF)} "
+        lines.append(f"VIOLATION property={prop} replay={_rel(p)} "
                      f"no-failing-input-found")
         lines.append(f"  {what[:400]}")
         nviol += 1
